@@ -324,9 +324,26 @@ Definition chunk_ok (n c : nat) : bool := (0 <? c) && (c <=? n).
    datasets are created with chunks=min(n_valid, 20000), or chunks=None when
    n_valid = 0: pieces (or a whole result) without stored values are joined like
    any other. *)
+(* n_rows = final_shape[0] need not be the number of rows of the pieces: the pointer
+   array is created with n_rows + 1 zeros, every piece writes its pointers (without the
+   last) at the running row position, and finally indptr[-1] = n_valid.  h5py clips the
+   slice dst_indptr[pos : pos + n] to the extent; a clipped selection still accepts a
+   one-element array (broadcast, possibly to nothing) and refuses every longer one
+   (TypeError "Can't broadcast (n,) -> (k,)").  With fewer rows than n_rows the gap stays
+   zero (a pointer array that is not monotone); rows beyond n_rows are dropped and the
+   last slot is overwritten by n_valid. *)
+Fixpoint clipped_piece (n_indptr pos : nat) (ps : list comp) : bool :=
+  match ps with
+  | [] => false
+  | p :: t => let n := length (ptr p) - 1 in
+              ((2 <=? n) && (n_indptr <? pos + n)) || clipped_piece n_indptr (pos + n) t
+  end.
 Definition amalgamate_csr (pieces : list comp) (n_rows : nat) : res comp :=
   bind (merge_csr pieces) (fun mg =>
-  if length (ptr mg) =? S n_rows then Ok mg else Err EReject).
+  let body := removelast (ptr mg) in
+  if clipped_piece (S n_rows) 0 pieces then Err EReject
+  else Ok {| ptr := firstn n_rows (body ++ repeat 0 (n_rows - length body)) ++ [last (ptr mg) 0];
+             idx := idx mg; dat := dat mg |}).
 
 (* amalgamate_dense_to_x *)
 Definition amalgamate_dense (pieces : list dense) : dense := concat pieces.
